@@ -204,9 +204,68 @@ def macro_template_names(tree):
     return out
 
 
+CL23P = ("cl23", "cl23.1", "cl24")
+
+
+def strategy_on(d, entry):
+    """does this build run the cl23+ strategy optimiser?  (the CLI switches optimisation on for these dialects
+    whatever -O says; compile_file does what its optimize flag says)"""
+    return d in CL23P and (entry.startswith("text:") or optimizing(entry))
+
+
+def first_param_nil(tree):
+    """`(mod (() …) …)`: the first position of the main parameter list is `()`."""
+    ps = tree[1][1] if len(tree[1]) > 1 else None
+    if not (ps and ps[0] == "list" and ps[1]):
+        return False
+    h = ps[1][0]
+    return h[0] == "nil" or (h[0] == "list" and not h[1] and h[2] is None)
+
+
+def dup_under_guard(tree):
+    """some non-trivial subexpression occurs twice in one function body (or the main expression), at least
+    once inside a branch of an `if` — what common-subexpression elimination may bind above the guard."""
+    from progen import text as _text
+
+    def scan(body):
+        occ = {}
+
+        def walk(t, guarded):
+            if t[0] != "list" or not t[1]:
+                return
+            it = t[1]
+            if it[0] != ("sym", "q") and it[0] != ("sym", "quote"):
+                k = _text(t)
+                if len(k) > 6:
+                    occ.setdefault(k, []).append(guarded)
+            if it[0] == ("sym", "if") and len(it) == 4:
+                walk(it[1], guarded)
+                walk(it[2], True)
+                walk(it[3], True)
+            elif it[0] in (("sym", "q"), ("sym", "quote")):
+                return
+            else:
+                for x in it:
+                    walk(x, guarded)
+        walk(body, False)
+        return any(len(v) >= 2 and any(v) for v in occ.values())
+
+    for f in tree[1][2:]:
+        if f[0] == "list" and f[1] and f[1][0][0] == "sym" and f[1][0][1] in ("defun", "defun-inline") and len(f[1]) == 4:
+            if scan(f[1][3]):
+                return True
+    return scan(tree[1][-1])
+
+
 def classify(pid, p, entry, src_out, impl_out, proghex):
     """signature of an oracle failure (used to match known findings)."""
     d = p["dialect"]
+    if strategy_on(d, entry) and first_param_nil(p["tree"]):
+        # C02-F4: the `com` sub-compilations of the if branches strip the (already stripped) environment again
+        return "compile:cl23-nil-first-param-env-stripped-twice"
+    if strategy_on(d, entry) and impl_out[:1] != "V" and dup_under_guard(p["tree"]):
+        # C02-F5: CSE binds an expression repeated under different guards above the guards
+        return "compile:cl23-cse-hoists-above-guard"
     if d != "classic" and inline_with_toplevel_capture(p["tree"]):
         return "compile:inline-toplevel-capture"
     if d == "cl21" and has_at_bytes_literal(p["tree"]):
